@@ -152,6 +152,9 @@ def mon_flat_memory(case, obs):
                     if o != want:
                         return 'op %d (%s): host load expected %s, got %s' % (i, t, want, o)
                     continue
+                if o != 'eG':
+                    return 'op %d: a host load longer than the device must be refused (Range), got %s' % (i, o)
+                continue
             return None
         if o == 'p':
             return 'op %d (%s): the library panicked' % (i, t)
@@ -776,6 +779,8 @@ def mon_capi(case, obs):
         out = obs.split()
         last_snap = None
         last_nvset = None
+        inited = False
+        poisoned = False
         for i, op in enumerate(ops):
             if i >= len(out):
                 break
@@ -783,6 +788,23 @@ def mon_capi(case, obs):
             name = op.split(':')[0]
             if name in ('t',):
                 continue
+            if poisoned:
+                # a call panicked under the lock: every later call must report failure, outputs untouched
+                want = {'pc': '1:deadbeef', 'reg': '1:deadbeef', 'rdw': '1:deadbeef', 'rdb': '1:a5', 'oport': '1:a5', 'pa': '1:a5',
+                        'pb': '1:a5', 'dirty': '0', 'vram': 'null'}.get(name)
+                if name == 'nvget':
+                    if not res.startswith('1:'):
+                        return 'op %d: %s on a poisoned machine returned %s (expected failure)' % (i, op, res)
+                elif name == 'snap':
+                    pass
+                elif res != (want or '1'):
+                    return 'op %d: %s on a poisoned machine returned %s (expected %s)' % (i, op, res, want or '1')
+                continue
+            if res == 'p' and name in ('step', 'loop') and not inited:
+                poisoned = True      # stepping a machine that was never initialised panics by design (HALT from zeroed ROM)
+                continue
+            if name == 'init' and res == '0':
+                inited = True
             if name == 'snap':
                 last_snap = parse_snap(res) if res.startswith('D:') else None
                 continue
@@ -811,6 +833,7 @@ def mon_capi(case, obs):
         if not parts[0].startswith('D:') or not parts[-1].startswith('D:'):
             return 'the machine was left poisoned: %s ... %s' % (parts[0][:20], parts[-1][:20])
         pre, post = parse_snap(parts[0]), parse_snap(parts[-1])
+        spec = [s[1:] if s.startswith('!') else s for s in spec]      # '!': sequential tail after the threads
         thr_ops = [s.split(',') if s else [] for s in spec]
         thr_out = [p.split(',') if p else [] for p in parts[1:-1]]
         polled = {0: [], 1: []}
@@ -848,6 +871,14 @@ def mon_capi(case, obs):
                 if sorted(got + pq['txq']) != sorted(old):
                     return 'channel %s: polled %s + still pending %s is not what was pending before %s' % (name, got, pq['txq'], old)
         if boot:
+            # keys typed by the stepping thread after the boot are transmitted on RS-232 once each, in order, and every
+            # transmitted byte is handed out exactly once (polls + what is still pending)
+            typed = [int(o.split(':')[1], 16) for o in thr_ops[0] if o.startswith('qb:')]
+            if typed:
+                got0 = [b for (_, b) in polled[0]] + post['ports'][0]['txq']
+                if got0 != pre['ports'][0]['txq'] + typed:
+                    return 'keys typed after boot %s; RS-232 bytes handed to the pollers %s + pending %s' % (
+                        typed, [b for (_, b) in polled[0]], post['ports'][0]['txq'])
             got = [b for (_, b) in polled[1]] + post['ports'][1]['txq']
             if sorted(got) != sorted(pre['ports'][1]['txq'] + [0x02, 0x12]) and sorted(got) != sorted(pre['ports'][1]['txq']):
                 return 'keyboard bytes handed to the pollers %s (+ pending %s): the firmware sends 02 12 exactly once' % (polled[1], post['ports'][1]['txq'])
@@ -859,6 +890,8 @@ def mon_capi(case, obs):
 
 def mon_sys(case, obs):
     toks = case.split()[1:]
+    if toks and toks[0] in ('C', 'T'):
+        return None          # C-interface call lists: judged by mon_capi
     if not toks or toks[0] != 'S':
         out, fin = split_obs(obs)
         if any(o == 'p' for o in out):
